@@ -237,6 +237,60 @@ theorem eval_rev_str (env : Env) (e : Expr) (cs : List Nat) (h : eval env e = .o
     eval env (.rev e) = .ok (.str cs.reverse) := by
   simp only [eval, h, bind_ok']
 
+/-! ### third round: `str.replace`, `for` loops -/
+
+theorem replaceGo_single (p : Nat) (rep l : List Nat) :
+    replaceGo [p] rep 0 l = l.flatMap (fun x => if x = p then rep else [x]) := by
+  induction l with
+  | nil => rfl
+  | cons x t ih =>
+    simp only [replaceGo, List.isPrefixOf, List.length_singleton, Nat.sub_self, ih, List.flatMap_cons, Bool.and_true]
+    by_cases h : x = p
+    · subst h; simp
+    · have : (p == x) = false := by simp; exact fun e => h e.symm
+      simp [h, this]
+
+theorem exec_forIn (env : Env) (x : String) (e : Expr) (body : Stmt) :
+    exec env (.forIn x e body) =
+      ((eval env e >>= iterItems) >>= fun items => items.foldlM (fun env v => exec (setVar env x v) body) env) := by
+  simp only [exec, bind_assoc]
+
+/-- simulation rule for `for x in items: body`: an abstract state `σ` related to environments by `A`, and a step
+    function over the abstract items `bs` (the loop sees `item b`) that every turn of the body follows, both when it
+    succeeds and when it raises -/
+theorem forIn_sim {σ β : Type} (x : String) (body : Stmt) (A : σ → Env → Prop) (item : β → Val)
+    (step : σ → β → Except Err σ)
+    (bs : List β)
+    (hstep : ∀ s b env, b ∈ bs → A s env →
+      match step s b with
+      | .ok s' => ∃ env', exec (setVar env x (item b)) body = .ok env' ∧ A s' env'
+      | .error e => exec (setVar env x (item b)) body = .error e) : ∀ s env, A s env →
+      match bs.foldlM step s with
+      | .ok s' => ∃ env', (bs.map item).foldlM (fun env v => exec (setVar env x v) body) env = .ok env' ∧ A s' env'
+      | .error e => (bs.map item).foldlM (fun env v => exec (setVar env x v) body) env = .error e := by
+  induction bs with
+  | nil => intro s env h; exact ⟨env, rfl, h⟩
+  | cons v t ih =>
+    intro s env h
+    have ih := ih (fun s b env hb => hstep s b env (List.mem_cons_of_mem _ hb))
+    have hs := hstep s v env (List.mem_cons_self) h
+    simp only [List.foldlM_cons, List.map_cons]
+    cases hv : step s v with
+    | error e =>
+      rw [hv] at hs
+      simp only [hs, bind_error']
+    | ok s' =>
+      rw [hv] at hs
+      obtain ⟨env', he, ha⟩ := hs
+      simp only [he, bind_ok']
+      exact ih s' env' ha
+
+theorem foldlM_ok_append {β γ : Type} (f : β → List γ) (bs : List β) (acc : List γ) :
+    bs.foldlM (fun (a : List γ) b => (Except.ok (a ++ f b) : Except Err (List γ))) acc = .ok (acc ++ bs.flatMap f) := by
+  induction bs generalizing acc with
+  | nil => simp only [List.foldlM_nil, List.flatMap_nil, List.append_nil]; rfl
+  | cons b t ih => simp only [List.foldlM_cons, bind_ok', ih, List.flatMap_cons, List.append_assoc]
+
 /-- symbolic execution for blocks that use the second-round constructs -/
 macro "mp_sym" : tactic => `(tactic|
   (simp (decide := true) only [runItem, exec, eval, bind_ok', bind_error', lookup_cons_eq, lookup_cons_ne,
